@@ -423,7 +423,7 @@ def c20(tier):
 def c12(tier):
     jobs = step_jobs("C12", tier)
     if tier == "quick":
-        jobs += [twin_job("C12", 1, sh, r=1) for sh in ("ATnL", "gxL")]   # gxL: a malformed line (ERROR state) with a possible CR before the LF
+        jobs += [twin_job("C12", 1, sh, r=1) for sh in ("ATnL", "gxL", "ATnRnL")]   # gxL: a malformed line (ERROR state) with a possible CR before the LF
     else:
         jobs += [twin_job("C12", 1, sh, r=2) for sh in ("ATnL", "ATn?L", "ATn=aL", "gxL")]
     return with_prop("C12", jobs)
@@ -454,7 +454,9 @@ def c19(tier):
     jobs[0].required_witness = ["end-of-scenario", "five-lines-listed", "a-disabled-command-or-group"]
     jobs[1].required_witness = ["end-of-scenario", "line-does-not-fit"]
     if tier == "thorough":
-        jobs.append(list_job("C19", 20, 24, "m3.cap10to12", m=3))
+        j3 = list_job("C19", 20, 22, "m3.cap10to11", m=3)
+        j3.solver, j3.timeout = "cadical", 5400      # the largest guided run of the property: ~25 min on an idle machine
+        jobs.append(j3)
         jobs.append(list_job("C19", 12, 19, "m3.cap6to9", m=3))
     for nv in ((1, 2) if tier == "quick" else (1, 2, 3)):
         jobs.append(Job("k_test.nv%d" % nv, "k_test.c", {"NV": nv, "CAPMAX": 64}, unwind=100, unwindset={"strlen.0": 12, "strcpy.0": 10, "strncpy.0": 66},
